@@ -198,7 +198,7 @@ Proof.
   - (* Continue *) split; [|exact I]. intros L D F N lp x H. sem. unfold continue_res.
     destruct lp as [c|]; simpl; [|exact H].
     destruct (cond c x) as [[v x1]|]; simpl; auto.
-  - (* Return *) intros e; split; [|exact I]. intros L D F N lp x H. sem. exact H.
+  - (* Return *) intros e; split; [|exact I]. intros L D F N lp x H. sem. destruct (evalxs e x) as [vs x1]. exact H.
   - (* ReturnVoid *) split; [|exact I]. intros L D F N lp x H. sem. exact H.
   - (* FnCall *) intros void b IH; split; [|exact I]. intros L D F N lp x H. sem.
     destruct (rstmts None b [] None x) as [o x2]. destruct o; simpl; exact I.
@@ -549,7 +549,7 @@ Proof.
   - unfold evalx. simpl. discriminate.
   - simpl. discriminate.
   - unfold continue_res. destruct lp as [c|]; [destruct (cond c x) as [[v x1]|]|]; simpl; discriminate.
-  - unfold evalx. simpl. discriminate.
+  - destruct (evalxs es x) as [vs x1]. simpl. discriminate.
   - simpl. discriminate.
 Qed.
 
@@ -836,9 +836,9 @@ Proof.
       unfold continue_res, post. cbn [benign catcher tconv].
       destruct (run_upto is_loop rin x) as [o2 x2]. destruct o2; reflexivity.
   - (* Return *) intro e. split; [|exact I]. intros inner outer rin lp lastin N x Hc Hw Hlp. unf.
-    rewrite tblock_single. cbn [texec]. unfold evalx.
+    rewrite tblock_single. cbn [texec]. destruct (evalxs e x) as [vs x1].
     rewrite close_upscopes_app by exact Hw.
-    rewrite after_cleanup_eq. fold (tblock (close_upto is_func inner) (emit (EvR e) x)).
+    rewrite after_cleanup_eq. fold (tblock (close_upto is_func inner) x1).
     rewrite (close_upto_run _ _ _ _ Hc). reflexivity.
   - (* ReturnVoid *) split; [|exact I]. intros inner outer rin lp lastin N x Hc Hw Hlp. unf.
     rewrite close_upscopes_app by exact Hw.
@@ -884,7 +884,7 @@ Proof.
     pose proof (forall2_benign _ _ (proj2 (proj2 Hf))) as Hds. simpl in Hds.
     assert (Hkc : fk cur = KBlock) by (exact (proj1 Hf)).
     assert (Hgen : is_defer_or_close s = false ->
-      tblock (cstmt ((cur :: inner) ++ outer) (is_bnil r && head_is_doexpr (inner ++ outer)) s ++
+      tblock (cstmt ((cur :: inner) ++ outer) (omit_goto r (inner ++ outer)) s ++
               cbody (inner ++ outer) cur r (is_breakflow s) tl) x =
       tail_post tl (post (inner ++ outer) rin
         (match rstmt lp s x with
@@ -1168,7 +1168,7 @@ Example wf_example :
     BCons (Defer 1 (BCons (Emit 2) BNil))
    (BCons (While 3 (BCons (Close [(4,false);(5,true)])
                    (BCons (Switch 6 (CCons (BCons (Defer 7 BNil) (BCons Break BNil)) false
-                                     (CCons (BCons Continue BNil) false CNil)) (BCons (Return 8) BNil))
+                                     (CCons (BCons Continue BNil) false CNil)) (BCons (Return [8]) BNil))
                     BNil)))
-   (BCons (Return 9) BNil))) = true.
+   (BCons (Return [9; 10]) BNil))) = true.
 Proof. reflexivity. Qed.
